@@ -53,7 +53,7 @@ impl Check for Routing {
         "C16"
     }
     fn rule(&self) -> String {
-        "generated: 2..5 subnets (10.(20+i).0.0/24) joined by 1..4 ArpRouters as a line, a star or a ring, 1..2 hosts per subnet (Udp, Ipv4, Arp with subnet information pointing at a router interface, recording application); per-router static tables that are shortest-path correct (/24 entries), then optionally damaged: an entry removed (hole), two neighbouring routers pointing at each other (loop), or a gateway nobody claims; in half of the cases 1..3 further entries of other prefix lengths (/32 host routes, /31 /30 /28 blocks, /16 /12 aggregates, default routes; a /31 together with a /32 inside it) towards any interface, so the route is decided by longest-prefix match; 1..6 tagged UDP datagrams between host pairs; random per-frame delays reorder ARP and data frames; oracle: an independent hop-by-hop walk over the tables gives the expected fate: for a deliverable route exactly one delivery, to the destination host's application only, payload unchanged, and the IPv4 frames carrying the tag traverse exactly the expected network sequence with TTL decreasing by 1 per router hop from the first observed TTL; otherwise no application receives it, the number of frames carrying the tag is at most the first TTL, no two of them have the same TTL on the same network, and the wire is silent at the end. non-trivial: a delivered datagram crossed >= 2 routers, or the route has a hole or a loop. distinct: hash of decoded topology".into()
+        "generated: 2..5 subnets (10.(20+i).0.0/24) joined by 1..4 ArpRouters as a line, a star or a ring, 1..2 hosts per subnet (Udp, Ipv4, Arp with subnet information pointing at a router interface, recording application); per-router static tables that are shortest-path correct (/24 entries), then optionally damaged: an entry removed (hole), two neighbouring routers pointing at each other (loop), or a gateway nobody claims; in half of the cases 1..3 further entries of other prefix lengths (/32 host routes, /31 /30 /28 blocks, /16 /12 aggregates, default routes; a /31 together with a /32 inside it) towards a router interface or an unclaimed address on any attached network, or 'deliver directly' on the interface that holds the destination (on another interface in 1/16 of the cases only: open known finding), so the route is decided by longest-prefix match; 1..6 tagged UDP datagrams between host pairs; random per-frame delays reorder ARP and data frames; oracle: an independent hop-by-hop walk over the tables gives the expected fate: for a deliverable route exactly one delivery, to the destination host's application only, payload unchanged, and the IPv4 frames carrying the tag traverse exactly the expected network sequence with TTL decreasing by 1 per router hop from the first observed TTL; otherwise no application receives it, the number of frames carrying the tag is at most the first TTL, no two of them have the same TTL on the same network, and the wire is silent at the end. non-trivial: a delivered datagram crossed >= 2 routers, or the route has a hole or a loop. distinct: hash of decoded topology".into()
     }
     fn assumptions(&self) -> Vec<String> {
         vec!["all networks have the same (unlimited) MTU; gateways in the tables are router interfaces on the outgoing network or unclaimed addresses".into()]
@@ -189,6 +189,9 @@ impl Check for Routing {
         // routes of other prefix lengths: host routes and small blocks that override the /24 entry, aggregates and default
         // routes that fill holes; a /31 and a /32 for the same host may point to different places
         let mut extra_kinds: Vec<&'static str> = vec![];
+        // 'deliver directly' on an interface whose network does not hold the destination is generated in 1 of 16 cases
+        // only: open known finding next_hop_resolved_from_other_interface (the ARP cache is shared by all interfaces)
+        let lift_wrong_interface = e.chance(1, 16);
         if e.chance(1, 2) {
             for _ in 0..(1 + e.choose(3)) {
                 let r = e.choose(nr);
@@ -200,6 +203,14 @@ impl Check for Routing {
                 let others: Vec<usize> = (0..nr).filter(|y| *y != r && routers[*y].nets.contains(&via)).collect();
                 let gw = match e.weighted(&[4, 2, 1]) {
                     0 if !others.is_empty() => Some(router_ip(via, others[e.choose(others.len())])),
+                    1 if (via != ds || bits <= 24) && !lift_wrong_interface && !others.is_empty() => {
+                        ctx.excluded += 1;
+                        Some(router_ip(via, others[e.choose(others.len())]))
+                    }
+                    1 if (via != ds || bits <= 24) && !lift_wrong_interface => {
+                        ctx.excluded += 1;
+                        Some(subnet_base(via) + 200)
+                    }
                     1 => None,
                     _ => {
                         if others.is_empty() {
@@ -224,7 +235,7 @@ impl Check for Routing {
                     let slot2 = e.choose(routers[r].nets.len());
                     let via2 = routers[r].nets[slot2];
                     let others2: Vec<usize> = (0..nr).filter(|y| *y != r && routers[*y].nets.contains(&via2)).collect();
-                    let gw2 = if others2.is_empty() { None } else { Some(router_ip(via2, others2[e.choose(others2.len())])) };
+                    let gw2 = if others2.is_empty() { if via2 == ds || lift_wrong_interface { None } else { Some(subnet_base(via2) + 200) } } else { Some(router_ip(via2, others2[e.choose(others2.len())])) };
                     routers[r].extra.retain(|t| !(t.0 == x && t.1 == 32));
                     routers[r].extra.push((x, 32, gw2, slot2));
                     extra_kinds.push("host_route_inside_31");
@@ -423,6 +434,11 @@ impl Check for Routing {
                     }
                 }
                 Fate::Dropped { why, .. } => {
+                    if *why == "next hop not on the outgoing network" && !got.is_empty() {
+                        // open known finding: the next hop's MAC was taken from an ARP entry learned on another interface
+                        // and the frame went to whoever owns that MAC number on the outgoing network
+                        crate::fail!("delivery", "next_hop_resolved_from_other_interface", "datagram {tag:#x} H{a}->H{b}: a router's route names a next hop that is not attached to the outgoing network, so the datagram must be dropped, but it was delivered to H{} (frames on networks {:?})", got[0].machine, tf.iter().map(|f| net_ids.iter().position(|n| *n == f.net).unwrap_or(99)).collect::<Vec<_>>());
+                    }
                     ensure!(got.is_empty(), "delivery", "undeliverable_delivered", "datagram {tag:#x} H{a}->H{b} has no route ({why}) but was delivered to H{}", got[0].machine);
                     ensure!(tf.len() <= ttl0, "ttl", "more_frames_than_ttl", "datagram {tag:#x}: {} frames carry it although its first TTL was {ttl0}", tf.len());
                     let mut seen = std::collections::HashSet::new();
